@@ -46,12 +46,19 @@ def rerun(ctx, prop, payload, rec):
         out = ctx.path("replay_trace.ndjson")
         args = list(payload["harness_args"])
         args[1] = out
+        if "--seeds" in args:
+            # the recording's seed file lived in a work directory that is gone: the catalogue is written again
+            sp = common.write_ndjson(ctx.path("replay_seeds.ndjson"), common.seed_records(common.load_seeds()))
+            args[args.index("--seeds") + 1] = sp
         common.harness(args, timeout=3600)
-        r = tlc.run("Trace_Engine", "Trace_Engine.cfg", env={"TRACE": out}, workers=1, want_records=True, stack="64m", heap="1500m", young="300m", timeout=3600)
+        env = {"TRACE": out}
+        if prop == "C01":
+            env["RESYNC"] = "0"     # C01 judges the move lists against the un-resynchronised model
+        r = tlc.run("Trace_Engine", "Trace_Engine.cfg", env=env, workers=1, want_records=True, stack="64m", heap="1500m", young="300m", timeout=3600)
         import props_engine
         n = 0
         for x in r.records:
-            if "bad" in x and (props_engine.in_scope(prop, x) or x.get("ev") in ("Coord", "CoordBatch", "Label", "LabelBatch", "EngineMove", "BookEdges", "GEnding", "Search", "Cli")):
+            if "bad" in x and (props_engine.in_scope(prop, x) or x.get("ev") in ("Coord", "CoordBatch", "Label", "LabelBatch", "EngineMove", "BookEdges", "GEnding", "GLabels", "Cli")):
                 n += 1
                 common.log(json.dumps(x)[:500])
         return n
